@@ -19,6 +19,7 @@ OBLIGATIONS = [
     "SkVerif.C20.entry_rejects_bad_window_step_sp",
     "SkVerif.C20.entry_rejects_window_not_fitting",
     "SkVerif.C20.entry_rejects_unknown_strategy",
+    "SkVerif.C20.tuner_rejects_unknown_strategy",
     "SkVerif.C20.entry_rejects_ill_formed_composite",
     "SkVerif.C20.rejection_leaves_unfitted",
     "SkVerif.C20.valid_context_accepted",
@@ -74,7 +75,8 @@ def _base(ep, rng):
         return {"origin": rng.choice([0, 4, 5]), "ep": ep, "y": "ok:%d" % n, "X": rng.choice(["none", "ok"]), "cv": "ok", "scoring": rng.choice(["none", "ok"]),
                 "strategy": rng.choice(["refit", "update"])}
     if ep == "gridsearch":
-        return {"origin": rng.choice([0, 4, 5]), "ep": ep, "y": "ok:%d" % n, "X": "none", "cv": "ok", "scoring": rng.choice(["none", "ok"]), "grid": "ok", "fh": rng.choice(["none", "r:1"])}
+        return {"origin": rng.choice([0, 4, 5]), "ep": ep, "y": "ok:%d" % n, "X": "none", "cv": "ok", "scoring": rng.choice(["none", "ok"]), "grid": "ok", "fh": rng.choice(["none", "r:1"]),
+                "strategy": rng.choice(["refit", "update"])}
     if ep == "reduce":
         st = rng.choice(["direct", "recursive", "multioutput", "dirrec"])
         return {"origin": rng.choice([0, 4, 5]), "ep": ep, "y": "ok:%d" % n, "X": "none" if st == "dirrec" else rng.choice(["none", "ok"]), "fh": fh, "strategy": st,
@@ -88,6 +90,18 @@ def _base(ep, rng):
 
 
 _FORM = [0]
+
+
+def _near_miss(names, other):
+    """unknown option names: an unrelated word, and names that are NEAR a valid one -- a part of it, two glued
+    together, another case, the empty string (a membership test on a string instead of a tuple accepts these)"""
+    out = [other, "", "".join(names[:2]), names[0][1:], names[0][:-1], names[-1][:2], names[0].upper(), names[0].capitalize()]
+    seen, res = set(names), []
+    for b in out:
+        if b not in seen:
+            seen.add(b)
+            res.append(b)
+    return res
 
 
 def _faults(c, rng):
@@ -172,7 +186,8 @@ def _faults(c, rng):
             for f in ("empty", "list", "beyond"):
                 put("cutoffs:" + f, cutoffs=f)
     if ep == "naive_fit":
-        put("strategy:unknown", strategy="median")
+        for bad in _near_miss(("last", "mean", "drift"), "median"):
+            put("strategy:unknown", strategy=bad)
         if c["strategy"] in ("mean", "last") :
             for f in INT_FAULTS:
                 if c["strategy"] == "last" and f in ("b",):
@@ -194,18 +209,22 @@ def _faults(c, rng):
         for f in ("i:0", "i:-2", "i:%d" % (n + 1)):
             put("size:" + f, fh="none", test=f)
     if ep == "evaluate":
-        put("strategy:unknown", strategy="retrain")
+        for bad in _near_miss(("refit", "update"), "retrain"):
+            put("strategy:unknown", strategy=bad)
         put("cv:notsplitter", cv="notcv")
         put("cv:none", cv="none")
         put("cv:nosww", cv="nosww")
         put("scoring:notcallable", scoring="notcallable")
     if ep == "gridsearch":
+        for bad in _near_miss(("refit", "update"), "retrain"):
+            put("strategy:unknown", strategy=bad)
         put("cv:notsplitter", cv="notcv")
         put("scoring:notcallable", scoring="notcallable")
         for g in ("scalar", "emptylist", "unknown"):
             put("grid:" + g, grid=g)
     if ep == "reduce":
-        put("strategy:unknown", strategy="iterated")
+        for bad in _near_miss(("direct", "recursive", "multioutput", "dirrec"), "iterated"):
+            put("strategy:unknown", strategy=bad)
         put("scitype:unknown", scitype="regressor")
         for f in INT_FAULTS:
             put("wl:" + f, wl=f)
